@@ -175,10 +175,15 @@ Proof. exact (fun F A z a s T1 T2 m i j => lincomb2n_entry z a s T1 T2 m i j). Q
 Print Assumptions C09_two_lincomb_is_T_applied.
 
 (* ---- four indices (base_four_symm.py) ---- *)
-(* PARTIAL: per block, first index only.  Missing: the same statement for indices 2-4 (needs
-   that the per-axis maps commute, i.e. additivity laws of the module), and the full-tensor
-   statement through the eight-fold fill (C09_four_mix_statement below is NOT proved; it is
-   checked by the labelled-integer correspondence for every type pattern of <= 4 shells). *)
+(* PARTIAL (this form): per block, first index only, as an equation between whole blocks.  The
+   statement for ALL FOUR indices is proved entry by entry in Props/C09_block4.v
+   (C09_block4_entry / C09_block4_is_cart_transformed, any module, no law; C09_block4_quadruple_sum
+   over a field) and lifted to the assembled arrays there (C09_four_symm_mix_is_cart_transformed,
+   C09_eri_mixed_is_cart_transformed_full: no symmetry hypothesis, sym8 is a theorem for the ERI
+   blocks, C09_eri_sym8).  For an ARBITRARY block function the eight-fold symmetry stays a
+   hypothesis (the code evaluates one quartet per orbit and copies); the list-level equation
+   C09_four_mix_statement below is not proved in that generality (it is checked by the
+   labelled-integer correspondence for every type pattern of <= 4 shells). *)
 Theorem C09_block4_index1_partial :
   forall (F : Type) (K : Fops F) (A : Type) (azero : A) (aadd : A -> A -> A) (ascale : F -> A -> A)
          (P : A -> Prop), module_laws K azero aadd ascale P ->
